@@ -5,7 +5,7 @@ use crate::prog::*;
 use crate::reg;
 use crate::sim;
 use scale_info::{PortableRegistry, TypeDef, TypeDefPrimitive};
-use scale_typegen_description::scale_value_from_seed;
+use scale_typegen_description::{scale_value, scale_value_from_seed};
 use serde_json::json;
 use std::collections::{BTreeMap, BTreeSet};
 
@@ -14,7 +14,7 @@ pub const META: PropMeta = PropMeta {
     level: "exploration",
     rule: "cases = (registry, id, seed): a hand-written gallery of recursive types that can terminate (ternary tree, list, optional boxes, mutual and generic recursion) referenced several times from one root and through Vec/array/tuple, with 48 / 512 seeds; simulator programs incl. cyclic ones, all primitives (the 128-bit ones are rewritten to U256/I256 in every fifth registry), all 8 store x order bit sequences, compact over unsigned integers, empty enums, Duration/NonZero/PhantomData entries; every id; 4 (quick) / 32 (thorough) seeds; Polkadot ids with 2 / 8 seeds (ids reaching a compact over anything but an unsigned integer or a single-field wrapper of one are outside the class: skipped and counted). Oracle: no panic; a returned value must encode with scale_value::scale::encode_as_type against the same id, the bytes must decode with decode_as_type consuming all input to an equal value (contexts removed); the same seed must give the same value; Err is acceptable only if the subgraph reachable from the id contains a cycle or an empty enum. Bounded progress (restating 'terminates'): transformer resolve calls <= the oracle's unfolding size of the type (sequences x2, arrays x length, enums = largest variant). non-trivial = a value was returned for a composite/variant/sequence type; distinct by (registry hash, id, seed).",
     assumptions: &["scale-value 0.18 / scale-encode 0.10 / scale-decode 0.16 are the reference encoder and decoder the statement names"],
-    required_counters: &["values_roundtripped", "errs_on_cyclic_or_empty", "bit_sequence_values", "compact_values", "same_seed_compared", "hook[tf:policy-enter]", "gallery_registries"],
+    required_counters: &["values_roundtripped", "errs_on_cyclic_or_empty", "bit_sequence_values", "compact_values", "same_seed_compared", "hook[tf:policy-enter]", "gallery_registries", "seedless_entry_point_calls"],
     floor: (3000, 100_000),
     shards: (16, 16),
 };
@@ -100,7 +100,12 @@ pub fn unfolding_with(r: &PortableRegistry, id: u32, stack: &mut Vec<u32>, memo:
     v
 }
 
+/// `seed == SEEDLESS` judges the convenience entry point `scale_value(id, types)` (fixed internal
+/// seed) by the same clauses.
+pub const SEEDLESS: u64 = u64::MAX;
+
 pub fn judge(ctx: &mut Ctx, r: &PortableRegistry, id: u32, seed: u64, info: &(bool, bool, BTreeSet<&'static str>, bool), bound: u64, replay: &dyn Fn() -> serde_json::Value) -> bool {
+    let scale_value_from_seed = |id: u32, r: &PortableRegistry, seed: u64| if seed == SEEDLESS { scale_value(id, r) } else { scale_value_from_seed(id, r, seed) };
     scale_typegen::verif_hooks::start();
     // logical-step watchdog: the call may emit at most a generous multiple of the oracle's
     // unfolding size of the type before it is stopped (bounded progress)
@@ -222,8 +227,12 @@ pub fn run_registry(ctx: &mut Ctx, r: &PortableRegistry, label: &str, seeds: u64
             continue;
         }
         let bound = unfolding(r, t, &mut Vec::new(), &mut memo);
-        for s in 0..seeds {
-            let seed = ctx.seed.wrapping_mul(1000).wrapping_add(s * 7919 + t as u64);
+        for s in 0..=seeds {
+            // the last round is the seedless entry point
+            let seed = if s == seeds { SEEDLESS } else { ctx.seed.wrapping_mul(1000).wrapping_add(s * 7919 + t as u64) };
+            if seed == SEEDLESS {
+                ctx.count("seedless_entry_point_calls", 1);
+            }
             ctx.begin_case(&format!("{label} id {t} seed {seed}"));
             let nt = judge(ctx, r, t, seed, &info, bound, &|| {
                 if polkadot {
